@@ -36,6 +36,10 @@ def gen(tier, rng):
 def run(tier, rng, C):
     cases = gen(tier, rng)
     v, stats = C.differential("C06", cases, nontrivial=lambda l, o: o.startswith("ok "))
+    bad, nbig = C.invariance("C06", c05.big_pairs(tier, rng, ["code", "refresh"]) if "c05" in globals() else big_pairs(tier, rng, ["code", "refresh"]), "a valid document with an unknown member of more than 1 MiB is accepted like the same document without it")
+    v += bad
+    stats["large_document_pairs"] = nbig
+    stats["evaluations"] = stats.get("evaluations", 0) + nbig
     stats["rule"] = ("token value-model documents: hostile Unicode strings with random JSON escaping (\\\\uXXXX, surrogate pairs, short escapes, \\\\/), expires_in over the u64 range and beyond, 0..n scopes incl. double/leading/trailing spaces, "
                      "token_type in many letter-cases and extension names, optional members absent/null/present, unknown members of every JSON type, declared extension members, any member order and whitespace; "
                      "standard and extension response types; decoded directly and through a 200 reply on the four token-endpoint kinds, blocking and future-based; all single-member deletions, 15 type corruptions, "
